@@ -15,6 +15,7 @@ import (
 
 // Gen is the loaded program plus contracts.
 type Gen struct {
+	typeInvQ       map[string][]*Clause
 	implOf         map[*ssa.Function]*Contract // concrete method -> interface contract it is checked against
 	typeInv        map[string]*ssa.Function    // typeKey -> invariant (heap dependent, re-assumed after unknown code)
 	createInv      map[string]*ssa.Function
@@ -177,6 +178,11 @@ func loadAll(repo string) (*Gen, error) {
 		for _, cl := range c.ReplayAssume {
 			bind(cl)
 		}
+		for _, ss := range c.Sites {
+			for _, cl := range ss.Requires {
+				bind(cl)
+			}
+		}
 		for _, ls := range c.Loops {
 			for _, cl := range ls.Invariants {
 				bind(cl)
@@ -225,6 +231,25 @@ func loadAll(repo string) (*Gen, error) {
 			t = types.NewPointer(t)
 		}
 		g.typeInv[typeKey(t)] = fn
+	}
+	g.typeInvQ = map[string][]*Clause{}
+	for _, cl := range cs.TypeInvQ {
+		sp := g.pkgs[cl.Owner.PkgDir]
+		if sp == nil || cl.FnName == "" {
+			continue
+		}
+		cl.Fn = sp.Func(cl.FnName)
+		tn := strings.TrimPrefix(cl.ObsType, "*")
+		obj := sp.Pkg.Scope().Lookup(tn)
+		if obj == nil || cl.Fn == nil {
+			cs.Errors = append(cs.Errors, "typeinvq: unknown type "+cl.ObsType)
+			continue
+		}
+		var t types.Type = obj.Type()
+		if strings.HasPrefix(cl.ObsType, "*") {
+			t = types.NewPointer(t)
+		}
+		g.typeInvQ[typeKey(t)] = append(g.typeInvQ[typeKey(t)], cl)
 	}
 	g.createInv = map[string]*ssa.Function{}
 	for _, ci := range cs.CreateInv {
